@@ -500,18 +500,23 @@ def tensor(list_of_tables):
     tableau = list_of_tables[0]
     list_of_tables = list_of_tables[1:]
     for tab in list_of_tables:
-        tableau.n_qubits = tableau.n_qubits + tab.n_qubits
-        tableau.destabilizer_x = block_diag(tableau.destabilizer_x, tab.destabilizer_x)
-        tableau.destabilizer_z = block_diag(tableau.destabilizer_z, tab.destabilizer_z)
-        tableau.stabilizer_x = block_diag(tableau.stabilizer_x, tab.stabilizer_x)
-        tableau.stabilizer_z = block_diag(tableau.stabilizer_z, tab.stabilizer_z)
+        new_table = np.block(
+            [
+                [
+                    block_diag(tableau.destabilizer_x, tab.destabilizer_x),
+                    block_diag(tableau.destabilizer_z, tab.destabilizer_z),
+                ],
+                [
+                    block_diag(tableau.stabilizer_x, tab.stabilizer_x),
+                    block_diag(tableau.stabilizer_z, tab.stabilizer_z),
+                ],
+            ]
+        )
         phase_list1 = np.split(tableau.phase, 2)
         phase_list2 = np.split(tab.phase, 2)
         phase_vector = np.hstack(
             (phase_list1[0], phase_list2[0], phase_list1[1], phase_list2[1])
         ).astype(int)
-
-        tableau.phase = phase_vector
 
         iphase_list1 = np.split(tableau.iphase, 2)
         iphase_list2 = np.split(tab.iphase, 2)
@@ -519,7 +524,7 @@ def tensor(list_of_tables):
             (iphase_list1[0], iphase_list2[0], iphase_list1[1], iphase_list2[1])
         ).astype(int)
 
-        tableau.iphase = iphase_vector
+        tableau.expand(new_table, phase_vector, iphase_vector)
 
     return tableau
 
